@@ -518,3 +518,169 @@ def rule_conclusion_vars_bound(db: ProgramDB) -> List[Instance]:
     if n == 0:
         raise AnalysisError("QueryObjectDescriptor: the place where conclusions are applied to a row was not found")
     return out
+
+
+def _inline_locals(e: ast.AST, defs, depth: int = 0) -> ast.AST:
+    """the expression with every local that is assigned exactly once replaced by what it was assigned"""
+    import copy as _copy
+
+    class T(ast.NodeTransformer):
+        def visit_Name(self, n):
+            ds = defs.get(n.id, [])
+            if isinstance(n.ctx, ast.Load) and len(ds) == 1 and isinstance(ds[0], ast.AST) and depth < 3:
+                return _inline_locals(_copy.deepcopy(ds[0]), defs, depth + 1)
+            return n
+    return T().visit(_copy.deepcopy(e))
+
+
+# ---------------------------------------------------------------------------------- CONCLUSION-VARS-BOUND (which variables)
+def rule_conclusion_vars_which(db: ProgramDB) -> List[Instance]:
+    """Which of the things a conclusion mentions are bound before it is drawn: decided by evaluating the guards of the statement
+    that collects them, for each kind of thing - a variable with a domain, a variable declared without one (it ranges over the
+    registry and has no domain before its first evaluation), a flattened expression (one row per element): collected; something
+    the row binds already, an inferred variable, a literal: not."""
+    from ..boolexpr import guards_of, eval_bool
+    out = []
+    qod = db.cls("QueryObjectDescriptor")
+    helpers = [m for m in qod.methods.values() if m.cls is qod and any(isinstance(x, ast.Attribute) and x.attr == "_conclusion_" for x in own_nodes(m.node))
+               and any(isinstance(c, ast.Call) and call_attr(c) == "append" for c in own_nodes(m.node))
+               and any(isinstance(x, ast.Attribute) and x.attr in ("_unique_variables_", "_all_variable_instances_") for x in own_nodes(m.node))]
+    if len(helpers) != 1:
+        raise AnalysisError(f"QueryObjectDescriptor: expected one helper that collects the unbound variables of the conclusions, found {len(helpers)}")
+    m = helpers[0]
+    appends = [c for c in own_nodes(m.node) if isinstance(c, ast.Call) and call_attr(c) == "append" and c.args and isinstance(c.args[0], ast.Name)]
+    vn = appends[0].args[0].id
+    bp = next((p for p in m.positional_params if p not in ("self",)), "binding")
+
+    def atom(e):
+        u = unparse(e)
+        if isinstance(e, ast.Call) and dotted(e.func) == "isinstance" and len(e.args) == 2 and unparse(e.args[0]) == vn:
+            names = [unparse(x).split(".")[-1] for x in (e.args[1].elts if isinstance(e.args[1], ast.Tuple) else [e.args[1]])]
+            if names == ["Literal"]:
+                return "LIT"
+            if names == ["Variable"]:
+                return "ISVAR"
+            if all(n in ("Flatten", "DomainMapping") for n in names):
+                return "ISFLAT"
+            return None
+        if u == f"{vn}._domain_":
+            return "DOMAIN"
+        if u == f"{vn}._is_inferred_":
+            return "INFERRED"
+        if u == f"{vn}._predicate_type_":
+            return "PRED"
+        if isinstance(e, ast.Compare) and len(e.ops) == 1 and isinstance(e.ops[0], (ast.In, ast.NotIn)) and unparse(e.comparators[0]) == bp:
+            return ("!" if isinstance(e.ops[0], ast.NotIn) else "") + "BOUND"
+        if isinstance(e, ast.Compare) and len(e.ops) == 1 and isinstance(e.ops[0], (ast.In, ast.NotIn)) and unparse(e.left) == vn:
+            return ("!" if isinstance(e.ops[0], ast.NotIn) else "") + "SEEN"
+        if isinstance(e, ast.Call) and dotted(e.func) == "any" and e.args and isinstance(e.args[0], ast.GeneratorExp) and vn in unparse(e.args[0].elt):
+            return "SEEN"
+        return None
+    cases = {
+        "a variable with a domain": (dict(ISVAR=True, LIT=False, ISFLAT=False, DOMAIN=True, INFERRED=False, PRED=False, BOUND=False, SEEN=False), True),
+        "a variable declared without a domain (ranges over the registry)": (dict(ISVAR=True, LIT=False, ISFLAT=False, DOMAIN=False, INFERRED=False, PRED=False, BOUND=False, SEEN=False), True),
+        "a flattened expression": (dict(ISVAR=False, LIT=False, ISFLAT=True, DOMAIN=False, INFERRED=False, PRED=False, BOUND=False, SEEN=False), True),
+        "something the row binds already": (dict(ISVAR=True, LIT=False, ISFLAT=False, DOMAIN=True, INFERRED=False, PRED=False, BOUND=True, SEEN=False), False),
+        "an inferred variable": (dict(ISVAR=True, LIT=False, ISFLAT=False, DOMAIN=False, INFERRED=True, PRED=False, BOUND=False, SEEN=False), False),
+        "a literal": (dict(ISVAR=True, LIT=True, ISFLAT=False, DOMAIN=True, INFERRED=False, PRED=False, BOUND=False, SEEN=False), False),
+    }
+    for label, (env, want) in cases.items():
+        got = False
+        try:
+            for c in appends:
+                st = c
+                while not isinstance(st, ast.stmt):
+                    st = db.parent(st)
+                g = [(t, pol) for t, pol in (guards_of(st, m.node.body) or []) if any(isinstance(x, ast.Name) and x.id == vn for x in ast.walk(t))]
+                # `continue` guards earlier in the same loop body count as negative guards
+                loop = next((l for l in own_nodes(m.node) if isinstance(l, ast.For) and any(x is st for x in ast.walk(l))), None)
+                skips = []
+                if loop is not None:
+                    inner = [l for l in ast.walk(loop) if isinstance(l, ast.For) and any(x is st for x in ast.walk(l))][-1]
+                    for s_ in inner.body:
+                        if s_ is st or any(x is st for x in ast.walk(s_)):
+                            break
+                        if isinstance(s_, ast.If) and s_.body and isinstance(s_.body[-1], ast.Continue) and not s_.orelse:
+                            skips.append(s_.test)
+                if all(bool(eval_bool(t, atom, env)) == pol for t, pol in g) and not any(bool(eval_bool(t, atom, env)) for t in skips):
+                    got = True
+        except (AnalysisError, KeyError) as e:
+            out.append(inst("CONCLUSION-VARS-BOUND", UNDECIDED, m, f"{m.short}[{label}]", f"guards not decidable: {e}", line=m.lineno))
+            continue
+        ok = got == want
+        out.append(inst("CONCLUSION-VARS-BOUND", HOLDS if ok else VIOLATION, m, f"{m.short}[{label}]",
+                        f"{'bound' if got else 'left alone'} before the conclusion is drawn" if ok else
+                        f"{label} that a conclusion mentions and the fired row lacks is {'bound (it must not be)' if got else 'NOT bound'} before the conclusion is drawn"
+                        + ("" if got else ": the conclusion takes its first value only - Add(t, Tag(box=b, item=flatten(b.items))) is drawn for the first element of each "
+                                          "box, a conclusion over let(H) for the first registered H"), line=m.lineno))
+    return out
+
+
+# ---------------------------------------------------------------------------------- INFER-MARK
+def rule_infer_mark(db: ProgramDB) -> List[Instance]:
+    """Which selected expressions a rule marks as inferred (their values come from the conclusions): a variable the rule
+    concludes on, a variable without a supplied domain - not a flattened expression (it has no such mark), not a variable with a
+    supplied domain that is merely selected next to the inferred one (it would stop ranging over its domain)."""
+    from ..boolexpr import guards_of, eval_bool
+    out = []
+    qod = db.cls("QueryObjectDescriptor")
+    m = qod.methods.get("_inform_selected_variables_that_they_should_be_inferred_")
+    if m is None:
+        raise AnalysisError("QueryObjectDescriptor._inform_selected_variables_that_they_should_be_inferred_ not found")
+    marks = [a for a in own_nodes(m.node) if isinstance(a, ast.Assign) and any(isinstance(t, ast.Attribute) and t.attr == "_is_inferred_" for t in a.targets)
+             and isinstance(a.value, ast.Constant) and a.value.value is True]
+    if not marks:
+        raise AnalysisError("the statement that marks a selected variable as inferred was not found")
+    mark = marks[0]
+    vn = unparse(mark.targets[0].value)
+    defs = local_defs(m)
+
+    def atom(e):
+        u = unparse(e)
+        if isinstance(e, ast.Call) and dotted(e.func) == "isinstance" and len(e.args) == 2 and unparse(e.args[0]) == vn and unparse(e.args[1]).endswith("Variable"):
+            return "ISVAR"
+        if u == f"{vn}._is_inferred_":
+            return "MARKED"
+        if u == f"{vn}._domain_source_":
+            return "SOURCE"
+        if u == f"{vn}._domain_is_the_registry_":
+            return "REGISTRY"
+        if isinstance(e, ast.Call) and dotted(e.func) == "any" and e.args and isinstance(e.args[0], ast.GeneratorExp) and vn in unparse(e.args[0].elt):
+            return "TARGET"
+        if isinstance(e, ast.Compare) and len(e.ops) == 1 and isinstance(e.ops[0], (ast.In, ast.NotIn)) and unparse(e.left) == vn:
+            return ("!" if isinstance(e.ops[0], ast.NotIn) else "") + "TARGET"
+        return None
+    loop = next((l for l in own_nodes(m.node) if isinstance(l, ast.For) and any(x is mark for x in ast.walk(l))), None)
+    if loop is None:
+        raise AnalysisError("the mark is not set in a loop over the selected variables")
+    cases = {
+        "a variable the rule concludes on": (dict(ISVAR=True, MARKED=False, SOURCE=False, REGISTRY=False, TARGET=True), True),
+        "a concluded-on variable that has a supplied domain": (dict(ISVAR=True, MARKED=False, SOURCE=True, REGISTRY=False, TARGET=True), True),
+        "a constructor term (no domain, no explicit conclusion)": (dict(ISVAR=True, MARKED=False, SOURCE=False, REGISTRY=False, TARGET=False), True),
+        "a variable with a supplied domain selected next to the inferred one": (dict(ISVAR=True, MARKED=False, SOURCE=True, REGISTRY=False, TARGET=False), False),
+        "a flattened expression selected next to the inferred one": (dict(ISVAR=False, MARKED=False, SOURCE=False, REGISTRY=False, TARGET=False), False),
+    }
+    for label, (env, want) in cases.items():
+        try:
+            g = [(_inline_locals(t, defs), pol) for t, pol in (guards_of(mark, loop.body) or [])]
+            skips = []
+            for s_ in loop.body:
+                if s_ is mark or any(x is mark for x in ast.walk(s_)):
+                    break
+                if isinstance(s_, ast.If) and s_.body and isinstance(s_.body[-1], ast.Continue) and not s_.orelse:
+                    skips.append(_inline_locals(s_.test, defs))
+            got = all(bool(eval_bool(t, atom, env)) == pol for t, pol in g) and not any(bool(eval_bool(t, atom, env)) for t in skips)
+        except (AnalysisError, KeyError) as e:
+            if env["ISVAR"] is False:
+                # evaluating an attribute of a non-variable is exactly the defect (AttributeError): the type test has to come first
+                got = True
+            else:
+                out.append(inst("INFER-MARK", UNDECIDED, m, f"{m.short}[{label}]", f"guards not decidable: {e}", line=mark.lineno))
+                continue
+        ok = got == want
+        out.append(inst("INFER-MARK", HOLDS if ok else VIOLATION, m, f"{m.short}[{label}]",
+                        f"{'marked' if got else 'not marked'} as inferred" if ok else
+                        f"{label} is {'marked as inferred (or its mark is read although it has none)' if got else 'not marked as inferred'}: " +
+                        ("a flattened expression has no such mark (AttributeError), and a variable with a domain that is marked stops ranging over its domain, so the "
+                         "rule matches nothing" if got else "its value would be taken from existing instances instead of from the conclusions"), line=mark.lineno))
+    return out
